@@ -365,9 +365,44 @@ func registerFmtErrors(e *Engine) {
 		return fmt.Sprintln(native...)
 	})
 	noop2 := func(ex *Exec, fr *frame, args []Value) Value { return tuple{K(64, 0), iface{}} }
-	for _, n := range []string{"fmt.Printf", "fmt.Println", "fmt.Print", "fmt.Fprintf", "fmt.Fprintln", "fmt.Fprint"} {
+	for _, n := range []string{"fmt.Printf", "fmt.Println", "fmt.Print"} {
 		e.reg(n, noop2)
 	}
+	// Fprint*: format natively, then call the writer's Write method in the target
+	fprint := func(render func(ex *Exec, args []Value) string) intrinsic {
+		return func(ex *Exec, fr *frame, args []Value) Value {
+			w := args[0].(iface)
+			s := render(ex, args[1:])
+			if w.t == nil {
+				ex.targetPanicStr("nil pointer dereference (Fprint to nil writer)")
+			}
+			if types.Identical(w.t, types.NewPointer(ex.fileType())) {
+				if p, _ := w.v.(*Value); p != nil {
+					if _, isFile := ex.handles()[p]; !isFile {
+						return tuple{K(64, uint64(len(s))), iface{}} // os.Stdout / os.Stderr
+					}
+				}
+			}
+			return ex.invoke(fr, w, "Write", bytesOfString(s))
+		}
+	}
+	e.reg("fmt.Fprintf", fprint(func(ex *Exec, a []Value) string { return ex.sprintf(argStr(ex, a[0]), variadic(a[1])) }))
+	e.reg("fmt.Fprintln", fprint(func(ex *Exec, a []Value) string {
+		va := variadic(a[0])
+		native := make([]any, len(va))
+		for i, x := range va {
+			native[i] = ex.fmtArg(x)
+		}
+		return fmt.Sprintln(native...)
+	}))
+	e.reg("fmt.Fprint", fprint(func(ex *Exec, a []Value) string {
+		va := variadic(a[0])
+		native := make([]any, len(va))
+		for i, x := range va {
+			native[i] = ex.fmtArg(x)
+		}
+		return fmt.Sprint(native...)
+	}))
 	e.reg("errors.Is", func(ex *Exec, fr *frame, args []Value) Value {
 		return KBool(ex.errorsIs(args[0].(iface), args[1].(iface), 0))
 	})
